@@ -48,49 +48,56 @@ theorem mem_preorderL {x : Node} : ∀ {ns : List Node}, x ∈ preorderL ns ↔ 
 
 /-! ## "still VALID" forces "nothing below changed" (while `_rebuild` lets every node child trigger) -/
 
-theorem rebuildSrc_valid (hT : rebuildTestsChildSource = false) (src : Option Src) (cs : List Node)
-    (h : (rebuildSrc src cs).map (·.status) = some .valid) : cs = [] ∧ rebuildSrc src cs = src := by
+theorem rebuildSrc_valid (hT : rebuildTestsChildSource = false) (src : Option Src) (cs : List Node) (k : Nat)
+    (h : (rebuildSrc src cs k).map (·.status) = some .valid) : cs = [] ∧ k = 0 ∧ rebuildSrc src cs k = src := by
   cases src with
   | none => simp [rebuildSrc] at h
   | some s =>
-    rcases rebuildSrc_cases s cs with h1 | ⟨_, h1⟩
+    rcases rebuildSrc_cases s cs k with h1 | ⟨_, h1⟩
     · rw [h1] at h
       simp only [Option.map_some, Option.some.injEq] at h
-      refine ⟨?_, h1⟩
-      cases cs with
-      | nil => rfl
-      | cons c cs =>
-        exfalso
-        have : rebuildSrc (some s) (c :: cs) = some { s with status := .ichildren } := by
-          unfold rebuildSrc
-          simp [h, childTriggers, hT]
-        rw [this] at h1
-        have := congrArg (Option.map (·.status)) h1
-        simp [h] at this
+      have hno : (cs.any childTriggers || cs.length != k) = false := by
+        cases hc : (cs.any childTriggers || cs.length != k) with
+        | false => rfl
+        | true =>
+          exfalso
+          have : rebuildSrc (some s) cs k = some { s with status := .ichildren } := by
+            unfold rebuildSrc; simp [h, hc]
+          rw [this] at h1
+          have := congrArg (Option.map (·.status)) h1
+          simp [h] at this
+      rw [Bool.or_eq_false_iff] at hno
+      obtain ⟨ha, hl⟩ := hno
+      have hcs : cs = [] := by
+        cases cs with
+        | nil => rfl
+        | cons c cs => simp [childTriggers, hT] at ha
+      subst hcs
+      refine ⟨rfl, ?_, h1⟩
+      have := hl; simp at this; exact this.symm
     · rw [h1] at h; simp at h
 
 theorem rebuildWith_valid (hT : rebuildTestsChildSource = false) (rs : Bool) (info : Info) (src : Option Src)
     (body els b' e' : List Node)
     (hv : (rebuildWith rs info src body els b' e').status = some .valid)
     (hs : info.kind = .scoped → rs = true)
-    (hb : body = [] → b' = []) (he : els = [] → e' = [])
-    (hem : b' ++ e' = [] → body ++ els = []) :
+    (hb : body = [] → b' = []) (he : els = [] → e' = []) :
     rebuildWith rs info src body els b' e' = .mk info src body els := by
   unfold rebuildWith at hv ⊢
   by_cases hk : info.kind = .scoped
   · simp only [hk, if_true, hs hk] at hv ⊢
     simp only [Node.status, Node.src] at hv
-    obtain ⟨h1, h2⟩ := rebuildSrc_valid hT src (body ++ els) hv
+    obtain ⟨h1, _, h2⟩ := rebuildSrc_valid hT src (body ++ els) _ hv
     rw [h2]
     have hb0 : body = [] := (List.append_eq_nil_iff.mp h1).1
     have he0 : els = [] := (List.append_eq_nil_iff.mp h1).2
     rw [hb hb0, he he0, hb0, he0]
   · simp only [hk, if_false] at hv ⊢
     simp only [Node.status, Node.src] at hv
-    obtain ⟨h1, h2⟩ := rebuildSrc_valid hT src (b' ++ e') hv
-    have h0 := hem h1
-    have hb0 : body = [] := (List.append_eq_nil_iff.mp h0).1
-    have he0 : els = [] := (List.append_eq_nil_iff.mp h0).2
+    obtain ⟨h1, h0, h2⟩ := rebuildSrc_valid hT src (b' ++ e') _ hv
+    have h0' : body ++ els = [] := List.eq_nil_of_length_eq_zero h0
+    have hb0 : body = [] := (List.append_eq_nil_iff.mp h0').1
+    have he0 : els = [] := (List.append_eq_nil_iff.mp h0').2
     rw [h2, (List.append_eq_nil_iff.mp h1).1, (List.append_eq_nil_iff.mp h1).2, hb0, he0]
 
 theorem rebuildWith_mk (rs : Bool) (info : Info) (src : Option Src) (body els b' e' : List Node) :
@@ -133,9 +140,6 @@ theorem subst_valid_mem (hT : rebuildTestsChildSource = false) (rs : Bool) (e : 
         exact rebuildWith_valid hT rs info src body els (substL rs e body) (substL rs e els) hv
           (by simpa [rebuildWith_info] using hs)
           (fun h => (substL_nil rs e body).mpr h) (fun h => (substL_nil rs e els).mpr h)
-          (fun h => by
-            have := List.append_eq_nil_iff.mp h
-            rw [(substL_nil rs e body).mp this.1, (substL_nil rs e els).mp this.2]; rfl)
       · exact hkids h1
     | some l =>
       simp only [hel, substSrc, Option.isSome_some, if_true] at hm
@@ -208,38 +212,16 @@ theorem lookup_values : ∀ {m : Mapper} {k : Node} {h : Handle}, lookup m k = s
 theorem visitL_nil_of_nil (rs : Bool) (m : Mapper) : visitL rs m [] = [] := by simp [visitL]
 
 mutual
-/-- known class `emptied-node-stays-valid`: a node that is kept (not a key, or spliced back by its own one-to-many value) had
-children and loses all of them -/
-def knownEmptiedB (rs : Bool) (m : Mapper) : Node → Bool
-  | .mk info src body els =>
-    let self := Node.mk info src body els
-    let kept := match lookup m self with
-      | none => true
-      | some (.tuple hs) => hs.contains self
-      | _ => false
-    kept && ((!(body ++ els).isEmpty && (visitL rs m body ++ visitL rs m els).isEmpty) ||
-      knownEmptiedLB rs m body || knownEmptiedLB rs m els)
-def knownEmptiedLB (rs : Bool) (m : Mapper) : List Node → Bool
-  | [] => false
-  | n :: ns => knownEmptiedB rs m n || knownEmptiedLB rs m ns
-end
-
-mutual
 theorem visitElem_valid_mem (hT : rebuildTestsChildSource = false) (rs : Bool) (m : Mapper) :
     ∀ (n n' : Node), n' ∈ preorderL (visitElem rs m n) → n'.status = some .valid → (n'.info.kind = .scoped → rs = true) →
-      knownEmptiedB rs m n = false → n' ∈ preorder n ∨ n' ∈ preorderL (mapperValues m)
+      n' ∈ preorder n ∨ n' ∈ preorderL (mapperValues m)
   | .mk info src body els, n' => by
-    intro hm hv hs hk
+    intro hm hv hs
     rw [visitElem] at hm
-    rw [knownEmptiedB] at hk
-    -- what holds for the rebuilt node whenever it is kept
-    have hreb : (match lookup m (.mk info src body els) with
-          | none => true | some (.tuple hs) => hs.contains (.mk info src body els) | _ => false) = true →
-        n' ∈ preorder (rebuildWith rs info src body els (visitL rs m body) (visitL rs m els)) →
+    -- what holds for the rebuilt node
+    have hreb : n' ∈ preorder (rebuildWith rs info src body els (visitL rs m body) (visitL rs m els)) →
         n' ∈ preorder (.mk info src body els) ∨ n' ∈ preorderL (mapperValues m) := by
-      intro hkept hin
-      simp only [hkept, Bool.true_and, Bool.or_eq_false_iff, Bool.and_eq_false_imp, Bool.not_eq_true'] at hk
-      obtain ⟨⟨hem, hkb⟩, hke⟩ := hk
+      intro hin
       obtain ⟨s', hr'⟩ := rebuildWith_mk rs info src body els (visitL rs m body) (visitL rs m els)
       rw [hr', preorder_mk] at hin
       rw [preorder_mk]
@@ -247,27 +229,21 @@ theorem visitElem_valid_mem (hT : rebuildTestsChildSource = false) (rs : Bool) (
       · left
         refine List.mem_cons.mpr (Or.inl ?_)
         rw [h0, ← hr'] at hv hs ⊢
-        refine rebuildWith_valid hT rs info src body els _ _ hv (by simpa [rebuildWith_info] using hs) ?_ ?_ ?_
+        refine rebuildWith_valid hT rs info src body els _ _ hv (by simpa [rebuildWith_info] using hs) ?_ ?_
         · intro h; rw [h]; exact visitL_nil_of_nil rs m
         · intro h; rw [h]; exact visitL_nil_of_nil rs m
-        · intro h
-          by_cases hbe : body ++ els = []
-          · exact hbe
-          · have h1 : (body ++ els).isEmpty = false := by simpa using hbe
-            have := hem (by simp [h1])
-            simp [h] at this
       · rcases List.mem_append.mp h1 with h | h
-        · rcases visitL_valid_mem hT rs m body n' h hv hs hkb with h | h
+        · rcases visitL_valid_mem hT rs m body n' h hv hs with h | h
           · exact Or.inl (List.mem_cons.mpr (Or.inr (List.mem_append.mpr (Or.inl h))))
           · exact Or.inr h
-        · rcases visitL_valid_mem hT rs m els n' h hv hs hke with h | h
+        · rcases visitL_valid_mem hT rs m els n' h hv hs with h | h
           · exact Or.inl (List.mem_cons.mpr (Or.inr (List.mem_append.mpr (Or.inr h))))
           · exact Or.inr h
     cases hl : lookup m (.mk info src body els) with
     | none =>
-      simp only [hl] at hm hreb
+      simp only [hl] at hm
       rw [preorderL, preorderL, List.append_nil] at hm
-      exact hreb trivial hm
+      exact hreb hm
     | some h =>
       cases h with
       | drop => simp only [hl] at hm; simp [preorderL] at hm
@@ -276,31 +252,29 @@ theorem visitElem_valid_mem (hT : rebuildTestsChildSource = false) (rs : Bool) (
         rw [preorderL, preorderL, List.append_nil] at hm
         exact Or.inr (mem_preorderL.mpr ⟨h, lookup_values hl h (by simp [handleNodes]), hm⟩)
       | tuple hl' =>
-        simp only [hl] at hm hreb
+        simp only [hl] at hm
         obtain ⟨x, hx, hin⟩ := mem_preorderL.mp hm
         obtain ⟨h, hh, rfl⟩ := List.mem_map.mp hx
         by_cases heq : h = .mk info src body els
         · simp only [heq, if_true] at hin
-          refine hreb ?_ hin
-          rw [← heq]; simpa using hh
+          exact hreb hin
         · simp only [heq, if_false] at hin
           have := refresh_valid_mem hT rs h n' hin hv hs
           exact Or.inr (mem_preorderL.mpr ⟨h, lookup_values hl h (by simpa [handleNodes] using hh), this⟩)
 theorem visitL_valid_mem (hT : rebuildTestsChildSource = false) (rs : Bool) (m : Mapper) :
     ∀ (ns : List Node) (n' : Node), n' ∈ preorderL (visitL rs m ns) → n'.status = some .valid →
-      (n'.info.kind = .scoped → rs = true) → knownEmptiedLB rs m ns = false →
+      (n'.info.kind = .scoped → rs = true) →
       n' ∈ preorderL ns ∨ n' ∈ preorderL (mapperValues m)
   | [], n' => by intro h; simp [visitL, preorderL] at h
   | n :: ns, n' => by
-    intro h hv hs hk
+    intro h hv hs
     rw [visitL, preorderL_append] at h
-    rw [knownEmptiedLB, Bool.or_eq_false_iff] at hk
     rw [preorderL]
     rcases List.mem_append.mp h with h | h
-    · rcases visitElem_valid_mem hT rs m n n' h hv hs hk.1 with h | h
+    · rcases visitElem_valid_mem hT rs m n n' h hv hs with h | h
       · exact Or.inl (List.mem_append.mpr (Or.inl h))
       · exact Or.inr h
-    · rcases visitL_valid_mem hT rs m ns n' h hv hs hk.2 with h | h
+    · rcases visitL_valid_mem hT rs m ns n' h hv hs with h | h
       · exact Or.inl (List.mem_append.mpr (Or.inr h))
       · exact Or.inr h
 end
